@@ -1,0 +1,35 @@
+//go:build verif
+
+package car
+
+// Exported wrapper around the internal CARv1 loader's batch path for the external verification
+// harness (build tag "verif" only). Add-only: no existing code is touched.
+
+import (
+	"context"
+	"io"
+
+	blocks "github.com/ipfs/go-block-format"
+	"github.com/ipfs/go-cid"
+	"github.com/ipld/go-car/v2/internal/carv1"
+)
+
+type verifC02xBatchStore struct {
+	put     func(blocks.Block) error
+	putMany func([]blocks.Block) error
+}
+
+func (s verifC02xBatchStore) Put(_ context.Context, b blocks.Block) error { return s.put(b) }
+func (s verifC02xBatchStore) PutMany(_ context.Context, bs []blocks.Block) error {
+	return s.putMany(bs)
+}
+
+// VerifC02xCarV1LoadCarBatch drives the internal CARv1 loader with a store that has a PutMany
+// method (fast path: blocks are buffered and handed over in batches).
+func VerifC02xCarV1LoadCarBatch(put func(blocks.Block) error, putMany func([]blocks.Block) error, r io.Reader) ([]cid.Cid, error) {
+	h, err := carv1.LoadCar(verifC02xBatchStore{put: put, putMany: putMany}, r)
+	if err != nil {
+		return nil, err
+	}
+	return h.Roots, nil
+}
